@@ -635,12 +635,11 @@ class Quantity:
         :returns:
             Returns the scalar converted to the passed unit.
         """
-        if not self._is_derived:
-            from_unit = self._unit
+        # same unit: no conversion needed
+        if self._unit == to_unit:
+            return value
 
-            # same unit: no conversion needed
-            if from_unit == to_unit:
-                return value
+        if not self._is_derived:
 
             other = self._unit_database.GetInfo(self._quantity_type, to_unit, fix_unknown=True)
 
